@@ -357,6 +357,7 @@ Verdict IoEngine::execute(const Plan& plan, EventLog& log, Stats& st)
   }
   st.nontrivial = fired > 0;
   // where did the faults land?  (element, lexical context, fault kind)
+  std::string sites;
   if (fired) {
     std::string D0 = from_hex(plan.get("doc", "")); if (D0.empty()) D0 = B;
     xmlscan::Scan S = xmlscan::scan(D0);
@@ -364,11 +365,15 @@ Verdict IoEngine::execute(const Plan& plan, EventLog& log, Stats& st)
       if (s.a.empty() || D0.empty()) continue;
       if (s.op == "cut" || s.op == "trunc" || s.op == "err" || s.op == "flip" || s.op == "setb" || s.op == "ins" || s.op == "delb" || s.op == "lost" || s.op == "dupc" || s.op == "swapc" || s.op == "empty") {
         size_t p = (size_t)s.arg(0) % D0.size(); int el = S.elem_of[p];
-        st.state("fault_sites", fmt("%s/%s/%s", el >= 0 ? S.tags[el].name.c_str() : "(top)", xmlscan::ctx_name(S.ctx[p]), s.op.c_str()));
+        std::string site = fmt("%s/%s/%s", el >= 0 ? S.tags[el].name.c_str() : "(top)", xmlscan::ctx_name(S.ctx[p]), s.op.c_str());
+        st.state("fault_sites", site); sites += site + ";";
       }
     }
   }
   if (const char* dp = getenv("VERIF_DUMP_BYTES")) write_file(dp, B);      // debugging aid: the bytes actually delivered
+  // abstract form of the run: consumer, document, and where which fault landed (element / lexical context / kind)
+  st.shape = target + ":" + plan.get("name", plan.get("sweep", "")).substr(0, 40) + ":" + sites;
+  for (const Step& s : plan.steps) if (s.a.empty() || is_transport(s.op) == false) { if (sites.find(s.op) == std::string::npos) st.shape += s.op + ","; }
   log.line("target %s bytes %zu doc %016llx cuts %zu err %d valid %d", target.c_str(), B.size(), (unsigned long long)fnv(B), cuts.size(), (int)err_end, (int)valid);
   st.add("target." + target);
   if (target == "gkf") return exec_gkf(plan, B, cuts, finalsep, valid, log, st);
